@@ -232,6 +232,13 @@ func c03Units(tier string) []Unit {
 		// it): only the nearest one and what it asks for may run
 		add("decorator-levels"+tag, cfg, nil, prefixChild, alpha{scopes: []int{0, 1}, ctors: []*uFunc{pA, pDd},
 			decos: []*uFunc{dA, dA0}, invokes: []*uFunc{iA}}, d+1, explore.Budget{Provides: 2, Decorates: 2, Invokes: 3, Rejected: 0})
+		// the same for a value group: every decorator of the group on the way
+		// to the root runs (whether or not the nearer one consumes the group),
+		// and through them the feeders, also those registered after a first Invoke
+		if !def {
+			add("group-decorator-levels", cfg, nil, prefixChild, alpha{scopes: []int{0, 1}, ctors: []*uFunc{fG1, fG1b},
+				decos: []*uFunc{dG, dG0}, invokes: []*uFunc{iG}}, d+1, explore.Budget{Provides: 2, Decorates: 2, Invokes: 2, Rejected: 0})
+		}
 		b2 := b
 		b2.Scopes = 2
 		add("late-scopes"+tag, cfg, nil, nil, alpha{scopes: []int{0, 1, 2}, ctors: []*uFunc{pA, pB, pDd}, export: true,
@@ -433,6 +440,11 @@ func c10Units(tier string) []Unit {
 		invokes: []*uFunc{iG, iB}}, 4, explore.Budget{Provides: 3, Invokes: 1, Rejected: 1})
 	add("flatten", h.Config{}, nil, prefixChild, alpha{scopes: []int{0, 1}, ctors: []*uFunc{fG1, fFl0, fFl1, fFl2, fFlo}, export: true,
 		invokes: []*uFunc{iG, iGG}}, d, b)
+	// members that are equal values (the very same pointer delivered for
+	// several grouped results / flatten elements of one call): still one
+	// element per grouped result
+	add("equal-members", h.Config{}, nil, prefixChild, alpha{scopes: []int{0, 1}, ctors: []*uFunc{fG1, fFl3same, fObjSame, fPosSame}, export: !q,
+		invokes: []*uFunc{iG, iGG}}, d, b)
 	add("as", h.Config{}, nil, prefixChild, alpha{scopes: []int{0, 1}, ctors: []*uFunc{fG1, fAs, fAsII, fBg}, export: true,
 		invokes: []*uFunc{iG, iGI, iGII, iGB}}, d, b)
 	add("defer/plain", h.Config{Defer: true}, nil, prefixChild, alpha{scopes: []int{0, 1}, ctors: []*uFunc{fG1, fG2, fFl2, pG}, export: true,
@@ -627,6 +639,12 @@ func c12Units(tier string) []Unit {
 }
 
 var dAe = u.F("dAe", "A", "A,error")
+
+var (
+	fFl3same = u.F("fFl3same", "", "{[A]+g!3}", u.SameValues)         // a flatten slice of one pointer three times
+	fObjSame = u.F("fObjSame", "", "{A+g;{A+g};B+g}", u.SameValues)   // two fields (one nested) delivering the same pointer
+	fPosSame = u.F("fPosSame", "", "A,A", u.Group("g"), u.SameValues) // two positional results under dig.Group
+)
 
 var (
 	dGns  = u.F("dGns", "{A*g}", "{NS!1+g}") // group decorator returning the group as named slice NS
